@@ -447,7 +447,7 @@ func (s *Sim) Request(ctx context.Context, from, to p2p.PeerID, procedure string
 				}
 			}
 		}
-		if respErr == nil && procedure == "getBlocksFromId" && s.Adv != nil {
+		if respErr == nil && procedure == "getBlocksFromId" && s.Adv != nil && s.Adv.Enabled {
 			if rn := s.nodeByPeer(to); rn != nil && rn.IsAdversary {
 				if alt := s.Adv.SwapServed(respData); alt != nil {
 					respData = alt
